@@ -8,6 +8,9 @@ CHUNK_MIN, CHUNK_MAX = 1, 2147483647
 MAX_MESSAGE = 16777215
 
 
+from ..framework import wants
+
+
 def run(env, rep):
     prog, ctx = env.prog, env.ctx
     rep.explanation = (
@@ -16,7 +19,8 @@ def run(env, rep):
         "escapes), where a bound may come from the function's own guard or from a success post-condition of a callee; R2: the "
         "splitting loop of serialize is a counted loop whose stride (the chunk size) is >= 1 under that invariant, so it "
         "terminates; R3: the payload-length limit (<= 16 777 215) holds at every call that emits the length; R4: no public "
-        "function of the API types has an undischarged panic site (C03 R1 with the whole public API as entry set).  Not decided: "
+        "function of the API types has an undischarged panic site (C03 R1 with the whole public API as entry set); R6: an accepted chunk size takes effect only after it was announced under the old "
+        "size (C07 R5) - otherwise small sizes are accepted but not honoured.  Not decided: "
         "that every accepted value yields a working codec or session.")
     rep.assumptions = ["fields are only written by the crate that declares them (privacy is enforced by rustc)"]
     # ------------------------------------------------------------------ R1
@@ -113,3 +117,8 @@ def run(env, rep):
     bodies, ns = panic_sites(env, rep, "C19.R4", entries, "API")
     rep.floor("C19.R4", "panic-capable sites in API-reachable functions", ns, 60)
     nl = loops.loop_progress(env, rep, "C19.R5", bodies)
+    # ------------------------------------------------------------------ R6: an accepted chunk size is announced before it is used
+    from ..framework import PrefixReport
+    from . import C07
+    if wants(rep, "C19.R6"):
+        C07.run(env, PrefixReport(rep, "C07.", "C19.R6.", only=("C07.R5",)))
